@@ -201,6 +201,35 @@ def source_grep():
     return hits
 
 
+def repo_root():
+    import taurex
+    return os.path.dirname(os.path.dirname(os.path.abspath(taurex.__file__)))
+
+
+def source_tie(pid, mod):
+    """Regenerate TaurexModel/Gen/Src<pid>.lean from the source text of the taurex package under check (translate.py) and
+    re-check the tie theorems Props/<pid>Src.lean.  Returns None when the property has no source tie, else
+    dict(ok, failures[], info{...}).  A tie that no longer checks is a broken proof obligation, not an infra failure."""
+    specs = getattr(mod, 'SRC_SPECS', None)
+    if not specs:
+        return None
+    from harness import translate
+    root = repo_root()
+    out = os.path.join(LEAN, 'TaurexModel', 'Gen', 'Src%s.lean' % pid)
+    r = translate.translate_file(root, specs, 'Taurex.Gen.Src' + pid, out,
+                                 header='property %s; functions: %s' % (pid, ', '.join(
+                                     '%s:%s' % (sp['module'], sp['func']) for sp in specs)))
+    failures = ['source no longer translatable (%s)' % e for e in r['errors']]
+    ok, log = lake_build(['Props.%sSrc' % pid])
+    if not ok:
+        errs = [l.strip() for l in log.split('\n') if 'error' in l][:6]
+        failures.append('source tie Props/%sSrc.lean no longer checks against the regenerated TaurexModel/Gen/Src%s.lean: %s'
+                        % (pid, pid, ' | '.join(errs)[:900]))
+    return dict(ok=ok and not r['errors'], built=ok, failures=failures,
+                info=dict(generated_file='lean/TaurexModel/Gen/Src%s.lean' % pid, regenerated_changed=r['changed'],
+                          repo_root=root, functions=r['functions'], translator_errors=r['errors']))
+
+
 def prop_theorems(pid):
     """names of the theorems registered for a property = every `theorem` in Props/<pid>.lean"""
     p = os.path.join(LEAN, 'Props', pid + '.lean')
@@ -225,13 +254,20 @@ def read_lock():
     return d
 
 
-def audit(pid, thorough=False):
-    """returns dict(obligations, discharged, failures[list of str], axioms{thm: [..]}, checker_cmd)"""
+def audit(pid, thorough=False, tie=None):
+    """returns dict(obligations, discharged, failures[list of str], axioms{thm: [..]}, checker_cmd).
+    `tie`: result of source_tie (the theorems of Props/<pid>Src.lean are audited obligations as well)"""
     names, ppath = prop_theorems(pid)
     failures = []
     lock = read_lock()
     if lock.get(pid) != sha(ppath):
         failures.append('props.lock: statement file Props/%s.lean differs from the pinned hash' % pid)
+    tie_names = []
+    if tie is not None:
+        tie_names, tpath = prop_theorems(pid + 'Src')
+        if lock.get(pid + 'Src') != sha(tpath):
+            failures.append('props.lock: statement file Props/%sSrc.lean differs from the pinned hash' % pid)
+        failures.extend(tie['failures'])
     for f, w in source_grep():
         failures.append('forbidden construct %r in %s' % (w, f))
     adir = os.path.join(LEAN, '.lake', 'audit')
@@ -239,8 +275,20 @@ def audit(pid, thorough=False):
     afile = os.path.join(adir, pid + '.lean')
     with open(afile, 'w') as fh:
         fh.write('import Props.%s\n' % pid)
+        if tie is not None and tie['built']:
+            fh.write('import Props.%sSrc\n' % pid)
         for n in names:
             fh.write('#print axioms %s\n' % n)
+        if tie is not None and tie['built']:
+            for n in tie_names:
+                fh.write('#print axioms %s\n' % n)
+    if tie is not None:
+        if tie['built']:
+            names = names + tie_names
+        else:
+            # the tie file does not build: its theorems are obligations that are not discharged
+            for n in tie_names:
+                failures.append('theorem %s: not checked (source tie does not build)' % n)
     cmd = 'cd lean && lake env lean .lake/audit/%s.lean' % pid
     r = subprocess.run(['lake', 'env', 'lean', afile], cwd=LEAN, capture_output=True, text=True, timeout=1800)
     out = r.stdout + r.stderr
@@ -259,10 +307,11 @@ def audit(pid, thorough=False):
             discharged += 1
     if r.returncode != 0 and not failures:
         failures.append('audit file failed: ' + out.strip()[:500])
-    res = dict(obligations=len(names), discharged=discharged, failures=failures, axioms=axioms,
+    nobl = len(names) + (len(tie_names) if (tie is not None and not tie['built']) else 0)
+    res = dict(obligations=nobl, discharged=discharged, failures=failures, axioms=axioms,
                checker_cmd=cmd, theorems=names)
     if thorough:
-        mods = ['Props.' + pid]
+        mods = ['Props.' + pid] + (['Props.%sSrc' % pid] if (tie is not None and tie['built']) else [])
         t0 = time.time()
         rc = subprocess.run(['lake', 'env', 'leanchecker'] + mods, cwd=LEAN, capture_output=True, text=True,
                             timeout=3000)
